@@ -347,6 +347,8 @@ def handleValid (j : Json) : Except String Json := do
        -- hypothesis of `C02_siblings` (the children of the body form a sequence `C02_items` speaks about), per content part as walked
        ("<items>", Json.mkObj (cs.map fun r => (String.ofList r.path,
           match rootElement o a files r with | .ok cr => toJson (itemsOK (bodyKids cr.2)) | .error _ => Json.null))),
+       ("<partok>", Json.mkObj (cs.map fun r => (String.ofList r.path,
+          match rootElement o a files r with | .ok cr => toJson (partItemsOK cr.2) | .error _ => Json.null))),
        ("<groups>", toJson ((cs.map fun r => match rootElement o a files r with
           | .ok cr => ((itemsOf (bodyKids cr.2)).filter fun i => match i with | .grp _ => true | _ => false).length | .error _ => 0).foldl (· + ·) 0)),
        ("<sources>", toJson (cs.all fun r => match a.readXml r.path with | .ok root => validT root && goodTree root && sameWb root | .error _ => true))]))
